@@ -8,6 +8,7 @@ import (
 	"fmt"
 	"io"
 	"log"
+	"math"
 	"os"
 	"path/filepath"
 	"sort"
@@ -712,6 +713,34 @@ func genInput(t *rapid.T, kind string) (string, []gen.Row) {
 	return "nt", tiedAlignment(t, false, 2, 10, 4, 40)
 }
 
+// genSeed draws a --seed value over the whole int64 range, with the values at which a seeding
+// rule could change over-weighted; never -1, which is documented as "the clock"
+func genSeed(t *rapid.T) int64 {
+	var v int64
+	switch rapid.IntRange(0, 3).Draw(t, "seedkind") {
+	case 0:
+		v = rapid.SampledFrom([]int64{0, 1, -2, -12345, math.MinInt64, math.MaxInt64, 2, -3, math.MinInt64 + 1, 1 << 31, -(1 << 31), 1<<32 + 7}).Draw(t, "seedspecial")
+	case 1:
+		v = rapid.Int64Range(-1000, 1000).Draw(t, "seedsmall")
+	default:
+		v = rapid.Int64().Draw(t, "seed")
+	}
+	if v == -1 {
+		v = -2
+	}
+	return v
+}
+
+func seedClass(v int64) string {
+	switch {
+	case v == 0:
+		return "seed=0"
+	case v < 0:
+		return "seed<0"
+	}
+	return "seed>0"
+}
+
 func genThreads(t *rapid.T) []int {
 	all := []int{1, 2, 4, 16}
 	p := gen.Perm(t, 4, "tperm")
@@ -730,7 +759,7 @@ func genSweepFor(t *rapid.T, tp *tmpl) sweepCase {
 	for i := 0; i < 8; i++ {
 		c.Knobs = append(c.Knobs, rapid.IntRange(0, 999).Draw(t, "knob"))
 	}
-	c.Seed = rapid.Int64Range(0, 1<<40).Draw(t, "seed")
+	c.Seed = genSeed(t)
 	c.Seeded = tp.Random || rapid.Bool().Draw(t, "seeded")
 	c.Threads = genThreads(t)
 	c.Repeat = 3
@@ -763,7 +792,7 @@ func checkSweep(c sweepCase) (o pbt.Outcome, err error) {
 		clean = append(clean, strings.Fields(a)...)
 	}
 	if c.Seeded {
-		clean = append(clean, "--seed", fmt.Sprint(c.Seed))
+		clean = append(clean, fmt.Sprintf("--seed=%d", c.Seed))
 	}
 	type run struct {
 		t int
@@ -808,7 +837,7 @@ func checkSweep(c sweepCase) (o pbt.Outcome, err error) {
 	if !c.Seeded {
 		o.Class("run without --seed (command draws nothing)")
 	} else if tp.Random {
-		o.Class("randomised command, seeded")
+		o.Class("randomised command, " + seedClass(c.Seed))
 	}
 	if ref.s.Exit != 0 {
 		if os.Getenv("C11_DEBUG") != "" {
